@@ -3,6 +3,7 @@ package verifrt
 import (
 	"encoding/json"
 	"io"
+	"unsafe"
 )
 
 // Buf is an io.Writer collecting what is written.
@@ -110,4 +111,79 @@ func JSONMarshal(v any) ([]byte, error) { return []byte("{\"json\":true}"), nil 
 //verif:stub encoding/json.MarshalIndent
 func JSONMarshalIndent(v any, prefix, indent string) ([]byte, error) {
 	return []byte("{\"json\":true}"), nil
+}
+
+// ---------- io.Pipe (goroutines run eagerly: the writer side finishes before the reader starts) ----------
+
+type pipeBuf struct {
+	buf     []byte
+	wclosed bool
+	werr    error
+	rclosed bool
+}
+
+type pipeEnd struct{ p *pipeBuf }
+
+//verif:stub io.Pipe
+func IOPipe() (*io.PipeReader, *io.PipeWriter) {
+	p := &pipeBuf{}
+	return (*io.PipeReader)(unsafe.Pointer(&pipeEnd{p})), (*io.PipeWriter)(unsafe.Pointer(&pipeEnd{p}))
+}
+
+//verif:stub (*io.PipeWriter).Write
+func PipeWrite(w *io.PipeWriter, b []byte) (int, error) {
+	p := (*pipeEnd)(unsafe.Pointer(w)).p
+	if p.rclosed {
+		return 0, io.ErrClosedPipe
+	}
+	if p.wclosed {
+		return 0, io.ErrClosedPipe
+	}
+	p.buf = append(p.buf, b...)
+	return len(b), nil
+}
+
+//verif:stub (*io.PipeWriter).Close
+func PipeWClose(w *io.PipeWriter) error { return PipeWCloseWithError(w, nil) }
+
+//verif:stub (*io.PipeWriter).CloseWithError
+func PipeWCloseWithError(w *io.PipeWriter, err error) error {
+	p := (*pipeEnd)(unsafe.Pointer(w)).p
+	if !p.wclosed {
+		p.wclosed = true
+		if err == nil {
+			err = io.EOF
+		}
+		p.werr = err
+	}
+	return nil
+}
+
+//verif:stub (*io.PipeReader).Read
+func PipeRead(r *io.PipeReader, b []byte) (int, error) {
+	p := (*pipeEnd)(unsafe.Pointer(r)).p
+	if p.rclosed {
+		return 0, io.ErrClosedPipe
+	}
+	if len(p.buf) > 0 {
+		n := copy(b, p.buf)
+		p.buf = p.buf[n:]
+		return n, nil
+	}
+	if p.wclosed {
+		return 0, p.werr
+	}
+	panic("verifrt: read on an open empty pipe would block (writer goroutine did not finish)")
+}
+
+//verif:stub (*io.PipeReader).Close
+func PipeRClose(r *io.PipeReader) error {
+	(*pipeEnd)(unsafe.Pointer(r)).p.rclosed = true
+	return nil
+}
+
+//verif:stub (*io.PipeReader).CloseWithError
+func PipeRCloseWithError(r *io.PipeReader, err error) error {
+	(*pipeEnd)(unsafe.Pointer(r)).p.rclosed = true
+	return nil
 }
